@@ -2,7 +2,7 @@
    Local theorems (what one processed request / message does); convergence of the handshake and
    edge progress over the network model are explored in pipeline mode (C06_edge_progress_partial). *)
 From Coq Require Import ZArith List Bool Lia.
-From OF Require Import Base.Str Proto.Wire Proto.Receiver Proto.Receiver_Lemmas Proto.Receiver_Registered Proto.Sender Proto.Sender_Safety Proto.Sender_Progress.
+From OF Require Import Base.Str Proto.Wire Proto.Receiver Proto.Receiver_Lemmas Proto.Receiver_Registered Proto.Receiver_Asks Proto.Sender Proto.Sender_Safety Proto.Sender_Progress.
 Import ListNotations.
 Open Scope Z_scope.
 
@@ -98,6 +98,18 @@ Theorem C06_open_gate_publishes :
                      min_send_id s1 = sf_msg_id f + 1.
 Proof. exact open_gate_publishes. Qed.
 Print Assumptions C06_open_gate_publishes.
+
+(* a waiting consumer keeps asking: every time the poll at the head of recv_once comes back empty, a request for the id
+   being waited for goes out to every source that can be written to ('?' included, '??' never) - a request lost with a
+   restarted publisher is repeated one poll interval later *)
+Theorem C06_waiting_consumer_asks :
+  forall v st f t st' o,
+    control st = InP1 f -> valid_ready (with_now t st) [] = true -> rstep v st (IPoll [] t) = (st', o) ->
+    forall i s, nth_error (srcs st) i = Some s -> sc_eph (cfg s) < 2 -> push_full s = false ->
+      In (OPush i {| q_cid := client_id st; q_uid := sc_uid (cfg s); q_mid := f_min f - 1; q_eph := sc_eph (cfg s);
+                     q_new := negb (conn s); q_pay := None |}) o.
+Proof. exact waiting_consumer_asks. Qed.
+Print Assumptions C06_waiting_consumer_asks.
 
 (* Non-vacuity: client 1 asks for id 7 of a freshly started publisher (min_send_id 0): id 8 is adopted. *)
 Theorem C06_nonvacuous :
